@@ -90,6 +90,18 @@ def apply(op, args):
     if name == "RSubF": return op["f"] - x
     if name == "RMulF": return op["f"] * x
     if name == "RDivF": return op["f"] / x
+    # augmented assignments: Python rebinds the name (the classes define no in-place dunders), so the
+    # value is that of the plain operator and every other reference keeps its value
+    if name == "IAddF": y = x; y += op["f"]; return y
+    if name == "ISubF": y = x; y -= op["f"]; return y
+    if name == "IMulF": y = x; y *= op["f"]; return y
+    if name == "IDivF": y = x; y /= op["f"]; return y
+    if name == "IAddI": y = x; y += op["i"]; return y
+    if name == "IPowInt": y = x; y **= op["i"]; return y
+    if name == "IAdd": y = x; y += args[1]; return y
+    if name == "ISub": y = x; y -= args[1]; return y
+    if name == "IMul": y = x; y *= args[1]; return y
+    if name == "IDiv": y = x; y /= args[1]; return y
     if name == "Add": return x + args[1]
     if name == "Sub": return x - args[1]
     if name == "Mul": return x * args[1]
@@ -101,10 +113,28 @@ def unary_ops():
     ops += [{"name": "Log", "f": 2.5}, {"name": "SinCosS"}, {"name": "SinCosC"}, {"name": "Powi", "i": 3}, {"name": "Powi", "i": -2}, {"name": "Powf", "f": 2.5},
             {"name": "PowInt", "i": 2}, {"name": "PowInt", "i": 5}, {"name": "PowInt", "i": 0}, {"name": "PowInt", "i": 2**32 + 2}, {"name": "PowInt", "i": -(2**31) - 1}, {"name": "PowInt", "i": 2**31 - 1}, {"name": "PowFloat", "f": 2.0}, {"name": "PowFloat", "f": -1.5}, {"name": "PowFloat", "f": 0.5}, {"name": "PowFloat", "f": 1.0}, {"name": "PowFloat", "f": 0.0}, {"name": "PowFloat", "f": 3.0}, {"name": "PowFloat", "f": -1.0}, {"name": "Neg"},
             {"name": "AddF", "f": 0.75}, {"name": "SubF", "f": 0.75}, {"name": "MulF", "f": -1.5}, {"name": "DivF", "f": 4.0}, {"name": "AddI", "i": 2}, {"name": "MulI", "i": 3},
-            {"name": "RAddF", "f": 0.75}, {"name": "RSubF", "f": 0.75}, {"name": "RMulF", "f": -1.5}, {"name": "RDivF", "f": 4.0}]
+            {"name": "RAddF", "f": 0.75}, {"name": "RSubF", "f": 0.75}, {"name": "RMulF", "f": -1.5}, {"name": "RDivF", "f": 4.0},
+            {"name": "IAddF", "f": 0.75}, {"name": "ISubF", "f": 0.75}, {"name": "IMulF", "f": -1.5}, {"name": "IDivF", "f": 4.0}, {"name": "IAddI", "i": 2}, {"name": "IPowInt", "i": 3}]
     return ops
 
-BINARY = [{"name": n} for n in ("Add", "Sub", "Mul", "Div", "Powd", "PowDual")]
+BINARY = [{"name": n} for n in ("Add", "Sub", "Mul", "Div", "Powd", "PowDual", "IAdd", "ISub", "IMul", "IDiv")]
+
+def plain(op):
+    """the operation as the Rust replay knows it: an augmented assignment is the plain operator"""
+    n = op["name"]
+    if n.startswith("I") and n[1:] in ("AddF", "SubF", "MulF", "DivF", "AddI", "PowInt", "Add", "Sub", "Mul", "Div"):
+        q = dict(op); q["name"] = n[1:]; return q
+    return op
+
+def unchanged(cls, regs, want, steps):
+    """value semantics: no operation may change a number another reference still points to"""
+    for i, (r, w) in enumerate(zip(regs, want)):
+        now = [bits(v) for v in FLAT[cls](r)]
+        if now != w:
+            emit({"kind": "error", "class": cls, "steps": [{"op": op, "args": a} for op, a in steps],
+                  "error": "operand r%d was mutated in place by the last step: %r" % (i, r)})
+            return False
+    return True
 
 def steps_for(nregs, must_use_newest):
     out = []
@@ -122,12 +152,13 @@ def steps_for(nregs, must_use_newest):
 
 def record_prog(cls, inputs, steps, result):
     emit({"kind": "prog", "class": cls, "inputs": [[bits(v) for v in inp] for inp in inputs],
-          "steps": [{"op": op, "args": a} for op, a in steps],
+          "steps": [{"op": plain(op), "args": a} for op, a in steps],
           "result": [bits(v) for v in FLAT[cls](result)], "repr": repr(result)})
 
 def explore_class(cls, depth):
     ins = [start_values(cls, 0.625, 0), start_values(cls, 1.375, 5)]
     regs0 = [build(cls, v) for v in ins]
+    want0 = [[bits(a) for a in FLAT[cls](r)] for r in regs0]
     # constructors and getters: the flattened constructed value must be the constructor arguments
     for v, r in zip(ins, regs0):
         emit({"kind": "ctor", "class": cls, "args": [bits(a) for a in v], "result": [bits(a) for a in FLAT[cls](r)], "repr": repr(r)})
@@ -143,9 +174,13 @@ def explore_class(cls, depth):
             emit({"kind": "error", "class": cls, "steps": [{"op": op1, "args": a1}], "error": repr(e)})
             continue
         record_prog(cls, ins, [(op1, a1)], r2)
+        if not unchanged(cls, regs0, want0, [(op1, a1)]):
+            regs0 = [build(cls, v) for v in ins]
+            continue
         if depth < 2:
             continue
         regs = regs0 + [r2]
+        want2 = want0 + [[bits(v) for v in FLAT[cls](r2)]]
         for op2, a2 in steps_for(3, True):
             try:
                 r3 = apply(op2, [regs[i] for i in a2])
@@ -154,6 +189,23 @@ def explore_class(cls, depth):
                 emit({"kind": "error", "class": cls, "steps": [{"op": op1, "args": a1}, {"op": op2, "args": a2}], "error": repr(e)})
                 continue
             record_prog(cls, ins, [(op1, a1), (op2, a2)], r3)
+            if not unchanged(cls, regs, want2, [(op1, a1), (op2, a2)]):
+                regs0 = [build(cls, v) for v in ins]
+                break
+    # powers and reciprocals at a zero real part (the Rust operations return infinite / NaN parts
+    # there, they do not fail), both signs of zero
+    for z in (0.0, -0.0):
+        zin = [start_values(cls, z, 3)]
+        zr = build(cls, zin[0])
+        for op in ([{"name": "PowInt", "i": i} for i in (-1, -2, -3, 0, 1, 2, 3)] + [{"name": "Powi", "i": -1}, {"name": "Powi", "i": 2}, {"name": "PowFloat", "f": -1.0},
+                   {"name": "PowFloat", "f": 0.0}, {"name": "PowFloat", "f": 2.0}, {"name": "Recip"}, {"name": "RDivF", "f": 1.0}, {"name": "Sqrt"}]):
+            try:
+                r = apply(op, [zr])
+            except BaseException as e:
+                reraise_if_control(e)
+                emit({"kind": "error", "class": cls, "steps": [{"op": op, "args": [0]}], "error": repr(e), "inputs": [[bits(v) for v in zin[0]]]})
+                continue
+            record_prog(cls, zin, [(op, [0])], r)
     # numpy arrays on the right-hand side
     x = regs0[0]
     arr = np.array([1.0, -2.5])
